@@ -4,12 +4,15 @@ package c08
 import (
 	"fmt"
 	"math"
+	"regexp"
 
 	"github.com/ctessum/geom/proj"
 
 	"verifharness/internal/core"
 	"verifharness/internal/crsgen"
 )
+
+var tmLat0 = regexp.MustCompile(` \+lat_0=[-+.0-9eE]+`)
 
 func init() {
 	core.Register(&core.Prop{
@@ -25,7 +28,7 @@ func init() {
 		}}},
 		Run: run,
 		Floors: func(t string) map[string]int64 {
-			m := map[string]int64{"partner.same_datum": 10000, "partner.wgs84_area_of_use": 2000, "partner.wgs84_small_towgs84": 1000, "partner.geographic_without_datum": 1000, "position.conic_near_pole": 300, "position.across_the_antimeridian_of_the_partner_frame": 200, "position.mercator_on_the_antimeridian": 50, "position.conic_at_the_pole": 300, "position.tm_hair_off_equator": 300, "closure_pair": 5000, "ell.sphere": 60, "units.non_metre": 1000, "pm.set": 500}
+			m := map[string]int64{"partner.same_datum": 10000, "partner.wgs84_area_of_use": 2000, "partner.wgs84_small_towgs84": 1000, "partner.geographic_without_datum": 1000, "position.conic_near_pole": 300, "position.across_the_antimeridian_of_the_partner_frame": 200, "position.mercator_on_the_antimeridian": 50, "position.conic_at_the_pole": 300, "position.tm_hair_off_equator": 300, "position.tm_at_a_pole": 150, "tmerc.lat_0_at_a_pole": 50, "closure_pair": 5000, "ell.sphere": 60, "units.non_metre": 1000, "pm.set": 500}
 			for _, p := range []string{"longlat", "merc", "lcc", "aea", "eqdc", "tmerc", "utm", "krovak"} {
 				m["proj."+p] = 300
 			}
@@ -148,6 +151,14 @@ func run(c *core.Ctx, idx int) {
 			partner = "geographic_without_datum"
 		}
 	}
+	// transverse Mercator with its origin of latitudes AT a pole (the y axis then starts there:
+	// y = 0 at the pole, where a branch of the inverse takes the sign of the latitude from y)
+	tmPole := 0.0
+	if d.Proj == "tmerc" && area == nil && r.Chance(0.1) {
+		tmPole = 90 * float64(1-2*r.Intn(2))
+		d.Params = tmLat0.ReplaceAllString(d.Params, " +lat_0="+crsgen.F(tmPole))
+		c.Count("tmerc.lat_0_at_a_pole")
+	}
 	def := d.String()
 	c.Count("proj." + d.Proj)
 	nontrivial := d.HasDatum() || d.ToMeter != 1 || d.PM != "" || d.EllKind != "default"
@@ -179,7 +190,19 @@ func run(c *core.Ctx, idx int) {
 				lat = math.Pow(10, r.Range(-9, -5)) * float64(1-2*r.Intn(2)) // centimetres from the equator
 				c.Count("position.tm_hair_off_equator")
 			}
-			if (d.Proj == "lcc" || d.Proj == "aea" || d.Proj == "eqdc") && r.Chance(0.06) {
+			if (d.Proj == "tmerc" || d.Proj == "utm") && partner == "same_datum" && !d.HasDatum() && (tmPole != 0 && r.Chance(0.6) || r.Chance(0.15)) {
+				// exactly at a pole (the property limits the transverse series in longitude only).
+				// Only without a datum shift: the port, like proj4js, routes every pair with a
+				// 3- or 7-parameter datum through WGS84, even two references with the same datum;
+				// that hop returns the pole a tenth of a millimetre off the pole at an arbitrary
+				// longitude - outside |lon - lon_0| <= 3.5 deg, where the series is not usable.
+				lat = 90 * float64(1-2*r.Intn(2))
+				if tmPole != 0 && r.Chance(0.7) {
+					lat = tmPole
+				}
+				c.Count("position.tm_at_a_pole")
+				nearPole = true
+			} else if (d.Proj == "lcc" || d.Proj == "aea" || d.Proj == "eqdc") && r.Chance(0.06) {
 				// the cone-side latitudes reach the pole: co-latitudes from 3 deg down to 0.002 deg.
 				// (Closer than that the inverse of the equal-area and equidistant conics is
 				// ill-conditioned in latitude as well - the parallels crowd together, d(rho)/d(phi)
